@@ -6,6 +6,7 @@ import sys
 
 pid = sys.argv[1]
 tag = sys.argv[2] if len(sys.argv) > 2 else pid
+angle = sys.argv[3] if len(sys.argv) > 3 else ""
 p = next(json.loads(l) for l in open("/verif/properties.jsonl") if json.loads(l)["id"] == pid)
 prop = f"{p['title']}\n\n{p['statement']}\n\nQuantifier: {(p.get('quantifier') or {}).get('text', '')}\nAnchored in: {json.dumps(p.get('anchors'))}\n"
 print(f"""You are helping to evaluate verification tooling for the open-source project aws/clock-bound (a daemon that polls chronyd and publishes clock-error bounds through a seqlock-style shared-memory segment, plus Rust and C client libraries).
@@ -21,7 +22,7 @@ TASK: produce ONE realistic source change to aws/clock-bound (the kind of bug a 
   (1) the workspace still compiles, and
   (2) the existing test suite still passes unedited with your change applied (`cargo test --workspace --offline` : all tests green), and
   (3) the breakage needs something SPECIFIC to manifest - a particular interleaving, a crash or fault at a particular point, a multi-step sequence of operations, an unusual input value / boundary, or two cooperating sites that each look fine alone - NOT something ordinary use would expose at once.
-Prefer a subtle change (a boundary, a sign, an ordering, a unit, a missing case, a wrong field, an off-by-one, a dropped step) over a gross one. Look beyond the most obviously anchored function: a helper it calls, a caller that feeds it, a constant, a type conversion, an error path, or state kept between calls are all fair game, and so is a change spread over two places. Change only files under clock-bound-*/src or clock-bound-ffi/include; do not touch tests, Cargo.toml or Cargo.lock.
+Prefer a subtle change (a boundary, a sign, an ordering, a unit, a missing case, a wrong field, an off-by-one, a dropped step) over a gross one. Look beyond the most obviously anchored function: a helper it calls, a caller that feeds it, a constant, a type conversion, an error path, or state kept between calls are all fair game, and so is a change spread over two places. {angle} Change only files under clock-bound-*/src or clock-bound-ffi/include; do not touch tests, Cargo.toml or Cargo.lock.
 
 Also produce a DEMONSTRATION that is separate from the change: a new test (given as a patch that only ADDS a test function or a new test file) or a small program, which FAILS with your change applied and PASSES on the unchanged tree. Verify both facts yourself by running it both ways.
 
